@@ -78,6 +78,78 @@ def directed_programs():
     return list(dict.fromkeys(" ".join(x.split()) for x in out))
 
 
+FIXED = "ybnqiuxtd"
+FIXED_EDGE = {"y": (0, 1, 255), "b": (0, 1), "n": (0, 1, 32768, 65535), "q": (0, 258, 65535), "i": (0, 16909060, 2 ** 31, 2 ** 32 - 1), "u": (0, 1, 2 ** 32 - 1),
+              "x": (0, 72623859790382856, 2 ** 63, 2 ** 64 - 1), "t": (0, 1, 2 ** 64 - 1), "d": (0, 4609434218613702656, 0x7ff8000000000000, 2 ** 63)}
+STRLIKE = {"s": ("s-", "s61", "s68c3a96c6c6f", "s" + "78" * 9), "o": ("o2f", "o2f61", "o2f612f625f63"), "g": ("g-", "g69", "g617b73767d", "g28696929")}
+
+
+def fixed_elems(rnd, c, n):
+    e = FIXED_EDGE[c]
+    return " ".join("%s%d" % (c, e[(k + rnd.randrange(len(e))) % len(e)] if rnd else e[k % len(e)]) for k in range(n))
+
+
+def fixed_programs():
+    """F<c> e... ] : arrays of fixed-size elements written by ONE dbus_message_iter_append_fixed_array call"""
+    out = []
+    for off in range(8):
+        pre = " ".join("y%d" % (i + 1) for i in range(off))
+        for c in FIXED:
+            for n in (0, 1, 2, 7, 300):
+                out.append("%s F%s %s ] y255" % (pre, c, fixed_elems(None, c, n)))
+            e2 = fixed_elems(None, c, 2)
+            # nested: struct field, variant content, dict value, array element (empty and not), after a field that misaligns
+            out.append("%s ( y1 F%s %s ] F%s ] ) y255" % (pre, c, e2, c))
+            out.append("%s Va%s F%s %s ] ; Va%s F%s ] ; y255" % (pre, c, c, e2, c, c))
+            out.append("%s A{sa%s} { s61 F%s %s ] } { s- F%s ] } ] y255" % (pre, c, c, e2, c))
+            out.append("%s Aa%s F%s ] F%s %s ] F%s %s ] ] y255" % (pre, c, c, c, e2, c, fixed_elems(None, c, 7)))
+            out.append("%s A(ya%s) ( y1 F%s %s ] ) ( y2 F%s ] ) ] y255" % (pre, c, c, e2, c))
+            out.append("%s V(a%sy) ( F%s %s ] y3 ) ; y255" % (pre, c, c, e2))
+    return list(dict.fromkeys(" ".join(x.split()) for x in out))
+
+
+def to_fixed_calls(rnd, body):
+    """rewrite some A<c> ... ] groups of fixed element type into F<c> ... ] (same values, one call)"""
+    toks = body.split()
+    changed = False
+    for j, t in enumerate(toks):
+        if len(t) == 2 and t[0] == "A" and t[1] in FIXED and rnd.random() < 0.7:
+            toks[j] = "F" + t[1]
+            changed = True
+    return " ".join(toks) if changed else None
+
+
+def args_programs(rnd, n):
+    """buildargs programs: every top-level argument through its own dbus_message_append_args call"""
+    out = []
+    for c in FIXED:
+        for k in (0, 1, 2, 7, 300):
+            for off in (0, 1, 3):
+                out.append(" ".join(["y7"] * off + ["A%s %s ]" % (c, fixed_elems(None, c, k)), "y255"]))
+    for c, vals in STRLIKE.items():
+        for k in (0, 1, 2, 5):
+            for off in (0, 1, 5):
+                out.append(" ".join(["y7"] * off + ["A%s %s ]" % (c, " ".join(vals[i % len(vals)] for i in range(k))), "y255"]))
+    for _ in range(n):
+        args = []
+        for _k in range(rnd.choice((1, 2, 3, 5, 8))):
+            r = rnd.random()
+            if r < 0.35:
+                c = rnd.choice(FIXED)
+                args.append("%s%d" % (c, rnd.choice(FIXED_EDGE[c])))
+            elif r < 0.5:
+                c = rnd.choice("sog")
+                args.append(rnd.choice(STRLIKE[c]))
+            elif r < 0.85:
+                c = rnd.choice(FIXED)
+                args.append("A%s %s ]" % (c, fixed_elems(rnd, c, rnd.choice((0, 0, 1, 2, 3, 7, 40)))))
+            else:
+                c = rnd.choice("sog")
+                args.append("A%s %s ]" % (c, " ".join(rnd.choice(STRLIKE[c]) for _j in range(rnd.choice((0, 1, 2, 4))))))
+        out.append(" ".join(args))
+    return list(dict.fromkeys(" ".join(x.split()) for x in out))
+
+
 def body_of(prog):
     parts = prog.split(" ", 5)
     return parts[5] if len(parts) > 5 else ""
@@ -100,22 +172,31 @@ def model_body_sig(line):
 def leg(ctx, rep, rnd, tier, only=None):
     info = ctx["info"]
     wmodel = info.get("model_writer") or info.get("writer_model") or vlib.build_ml("writer")
+    # a program is (mode, tokens): "iter" = one iterator, one API call per token (F groups: open, ONE append_fixed_array, close);
+    # "args" = one dbus_message_append_args call per top-level argument
     if only is not None:
-        bodies = [only]
+        cases = [("args", only[len("buildargs "):])] if only.startswith("buildargs ") else [("iter", only)]
     else:
-        bodies = directed_programs()
+        bodies = directed_programs() + fixed_programs()
         n = 1500 if tier == "quick" else 40000
         for _ in range(n):
-            bodies.append(body_of(wiregen.rand_program(rnd, max_depth=rnd.choice((1, 2, 3, 3, 5)))))
-        bodies = [b for b in dict.fromkeys(" ".join(x.split()) for x in bodies) if b]
-    progs = [HDR + b for b in bodies]
-    wlines = ["wbuild le " + b for b in bodies]
+            b = body_of(wiregen.rand_program(rnd, max_depth=rnd.choice((1, 2, 3, 3, 5))))
+            bodies.append(b)
+            f = to_fixed_calls(rnd, b)
+            if f:
+                bodies.append(f)
+        cases = [("iter", b) for b in dict.fromkeys(" ".join(x.split()) for x in bodies) if b]
+        cases += [("args", b) for b in args_programs(rnd, 300 if tier == "quick" else 8000) if b]
+    bodies = [("buildargs " + b) if md == "args" else b for md, b in cases]      # replay form
+    progs = [(HDR.replace("build ", "buildargs ", 1) if md == "args" else HDR) + b for md, b in cases]
+    wlines = [("wbuildargs le " if md == "args" else "wbuild le ") + b for md, b in cases]
     impl, icr = vlib.run_lines(info["wire_h"], progs)
     model, mcr = vlib.run_lines(wmodel, wlines)
     for line, err in icr:
         rep.violation("implementation crashed / asserted while building a well-typed message through the iterator API: `%s`: %s" % (line[:300], err[-700:]),
-                      {"input": body_of(line), "cmd": line, "stderr": err, "leg": "writer"})
-    shapes = {"with_variant": 0, "with_array": 0, "with_dict": 0, "with_struct": 0, "empty_array": 0, "depth_ge_8": 0}
+                      {"input": dict(zip(progs, bodies)).get(line, body_of(line)), "cmd": line, "stderr": err, "leg": "writer"})
+    shapes = {"with_variant": 0, "with_array": 0, "with_dict": 0, "with_struct": 0, "empty_array": 0, "depth_ge_8": 0,
+              "with_fixed_array_call": 0, "empty_fixed_array_call": 0, "append_args_programs": 0, "append_args_string_arrays": 0}
     agree, mismatches = 0, []
     for b, p, i, m in zip(bodies, progs, impl, model):
         if i == "!CRASH":
@@ -127,14 +208,25 @@ def leg(ctx, rep, rnd, tier, only=None):
             rep.violation("public construction API refused a well-typed program (%s): %s" % (i[:60], b[:300]), {"input": b, "impl": i, "leg": "writer", "names": "generator well-typedness vs API"}, found_input=False)
             continue
         toks = b.split()
-        for k, pred in (("with_variant", lambda t: t[0] == "V"), ("with_array", lambda t: t[0] == "A"), ("with_dict", lambda t: t == "{"), ("with_struct", lambda t: t == "(")):
+        if toks[0] == "buildargs":
+            toks = toks[1:]
+            shapes["append_args_programs"] += 1
+            if any(t[0] == "A" and t[1] in "sog" for t in toks):
+                shapes["append_args_string_arrays"] += 1
+            if any(t[0] == "A" and t[1] in FIXED for t in toks):
+                shapes["with_fixed_array_call"] += 1
+            if any(t[0] == "A" and t[1] in FIXED and toks[j + 1] == "]" for j, t in enumerate(toks[:-1])):
+                shapes["empty_fixed_array_call"] += 1
+        elif any(t[0] == "F" for t in toks):
+            shapes["with_fixed_array_call"] += 1
+        for k, pred in (("with_variant", lambda t: t[0] == "V"), ("with_array", lambda t: t[0] in "AF"), ("with_dict", lambda t: t == "{"), ("with_struct", lambda t: t == "(")):
             if any(pred(t) for t in toks):
                 shapes[k] += 1
-        if any(t[0] == "A" and toks[j + 1] == "]" for j, t in enumerate(toks[:-1])):
+        if any(t[0] in "AF" and toks[j + 1] == "]" for j, t in enumerate(toks[:-1])):
             shapes["empty_array"] += 1
         depth = mx = 0
         for t in toks:
-            if t[0] in "AV" or t in ("(", "{"):
+            if t[0] in "AVF" or t in ("(", "{"):
                 depth += 1
                 mx = max(mx, depth)
             elif t in ("]", ")", "}", ";"):
@@ -152,7 +244,9 @@ def leg(ctx, rep, rnd, tier, only=None):
         # encoder on the program (wire model's `build`)
         spec = info.get("model_wire") or info.get("model") or vlib.build_ml("wire")
         sres, _ = vlib.run_lines(spec, ["spec1 " + x[8] for x in mismatches])
-        bres, _ = vlib.run_lines(spec, [x[1] for x in mismatches])
+        # the specification encoder sees the same abstract values: F<c> groups and buildargs programs as plain arrays
+        plain = lambda b: HDR + " ".join(("A" + t[1:]) if t[0] == "F" else t for t in b.split() if t != "buildargs")
+        bres, _ = vlib.run_lines(spec, [plain(x[0]) for x in mismatches])
         for (b, p, i, m, ib, isg, mb, msg, whole), sr, br in zip(mismatches, sres, bres):
             want = br.split(" bytes=", 1)[1].split(" ", 1)[0] if " bytes=" in br else None
             what = "body bytes" if ib != mb else "body signature"
@@ -166,5 +260,8 @@ def leg(ctx, rep, rnd, tier, only=None):
             "samples": bodies[:2] + bodies[len(bodies) // 2:len(bodies) // 2 + 2],
             "rule": "well-typed construction programs (wiregen.rand_program type trees of depth <= 5 plus directed: empty/1/2-element arrays of 23 element types at every offset mod 8, "
                     "arrays of arrays with empty inner arrays, variants of every contained alignment at every offset, variants in dict entries with every key type, struct-in-array type_pos walks, "
-                    "nesting to 32 for arrays/structs/variants/array-struct alternation, 255 arguments); each token is one API call on the implementation and one writer_step in the model; "
+                    "nesting to 32 for arrays/structs/variants/array-struct alternation, 255 arguments; F groups = arrays of each of the 9 fixed types of length 0/1/2/7/300 at every offset mod 8 written by "
+                    "ONE dbus_message_iter_append_fixed_array call, also inside structs, variants, dict values, arrays of arrays, and random programs with A<fixed> groups rewritten to F; "
+                    "buildargs programs = one dbus_message_append_args call per argument: basics, fixed arrays incl. empty, string/path/signature arrays); "
+                    "each token is one API call on the implementation and one writer_step in the model (an F group: open, one WFixedMulti, close); "
                     "compared: body bytes after the header and the SIGNATURE header field; little-endian only (dbus_message_new always uses the host order)"}
